@@ -97,3 +97,8 @@ package rlp
 
 //@ func Decode
 //@   opaque
+
+//@ func Encode
+//@   opaque
+//@ func EncodeToBytes
+//@   opaque
